@@ -202,7 +202,7 @@ theorem valQuals_words {ws : List Str} (hc : kConst ∉ ws) (hv : kVolatile ∉ 
   unfold valQuals
   rw [if_neg hcnt1, hf, hcc, hcv]
 
-theorem mem_joinSp_plain {ws : List Str} (h : ∀ w ∈ ws, Clean w) {c : Ch} (hc : c ∈ joinSp ws) :
+theorem mem_joinSp_plain {ws : List Str} (h : ∀ w ∈ ws, Clean w) {c : Nat} (hc : c ∈ joinSp ws) :
     c = 32 ∨ plainChar c = true := by
   rcases mem_joinSp hc with h1 | ⟨w, hw, hcw⟩
   · exact Or.inl h1
